@@ -126,8 +126,10 @@ def run_case(spec, ctx):
         if fam not in ("rb_revolute", "pm_fixeddistance"):
             layout = "hanging"
     moving = not (layout != "hanging" and rng.random() < 0.2)     # some large-amplitude systems start at rest
+    far = float(rng.uniform(1e3, 5e3)) if rng.random() < 0.3 else None
     model, poses, vels = consgen.random_model(rng, fam, nb, springs=springs, moving=moving,
-                                              layout="hanging" if layout == "hanging" else "random")
+                                              layout="hanging" if layout == "hanging" else "random", far=far)
+    ctx.cls("world:far_from_origin" if far else "world:near_origin")
     ctx.cls("springs:compliance_form" if any(sp.get("compliance") for sp in model["springs"]) else "springs:force_form_only")
     if any(sp.get("internal") for sp in model["springs"]):
         ctx.cls("springs:internal_pair_on_one_body")
